@@ -213,6 +213,7 @@ def one_pair(ctx, t1, t2, cases, corr=True, hyp_cases=None):
                              "a non-bidirectional delta did not refuse subtraction with ValueError")
         # --- corruption detection ---
         corrupt_cases = []
+        corrupt2 = []
         for cat in ("values_changed", "type_changes"):
             for p, ch in d.diff.get(cat, {}).items():
                 if "old_value" not in ch:
@@ -248,6 +249,14 @@ def one_pair(ctx, t1, t2, cases, corr=True, hyp_cases=None):
                     ctx.fail(dict(ccase, observed="no error logged"), "a mismatched base was silently accepted (raise_errors=False)")
                 if not isinstance(res, Exception):
                     corrupt_cases.append((base, res, cnt.n))
+                # the same location corrupted on the t2 side (for raising subtractions)
+                if "new_value" in ch and not corrupt2:
+                    try:
+                        keys2 = py_path(DC.parse_pathc(ch["new_path"])) if ch.get("new_path") else keys
+                        get_at(t2, keys2)
+                        corrupt2.append(set_at(copy.deepcopy(t2), keys2, corrupt_value(rng, ch["new_value"])))
+                    except Exception:
+                        pass
         # --- correspondence ---
         if guard and fwd is not None:   # (a replay runs this block too: its cases are simply not compiled)
             rem, add = DC.impl_orders(d)
@@ -275,11 +284,19 @@ def one_pair(ctx, t1, t2, cases, corr=True, hyp_cases=None):
             # --- operation sequences on ONE Delta object: the model's apply is a pure function of (delta, base) ---
             if corrupt_cases and (not corr or rng.random() < (0.5 if ctx.thorough else 0.35)):
                 cbase = corrupt_cases[0][0]
-                seq = [("add", cbase), ("add", cbase), ("add", t1), ("sub", t2), ("add", cbase), ("add", cbase)]
+                C, G = True, False     # corrupted / good base
+                seq = [("add", cbase, C), ("add", cbase, C), ("add", t1, G), ("sub", t2, G), ("add", cbase, C), ("add", cbase, C)]
+                # raising subtractions and the states they leave behind (fixed in /repo by 2fbf190, finding F10):
+                # a failed '-' must not leave the object reversed, a failed '+' must not leave post-processing state
+                # (the base with lists where t1 has tuples shows a stale tuple conversion)
+                if corrupt2:
+                    seq = [("sub", corrupt2[0], C), ("add", t1, G), ("sub", t2, G)] + seq + [("sub", corrupt2[0], C), ("sub", t2, G), ("add", t1, G)]
+                lt1 = c01.detuple(t1)
+                seq = seq + [("add", cbase, C), ("add", lt1, G), ("add", t1, G)]
                 ctx.count("reuse_sequences")
                 for re_ in (True, False):
                     obj = Delta(dd, bidirectional=True, raise_errors=re_)
-                    for k, (op, base) in enumerate(seq):
+                    for k, (op, base, is_corrupt) in enumerate(seq):
                         def run_on(o):
                             with DC.Counting() as c0:
                                 try:
@@ -291,16 +308,16 @@ def one_pair(ctx, t1, t2, cases, corr=True, hyp_cases=None):
                         ref = run_on(Delta(dd, bidirectional=True, raise_errors=re_))
                         same = got[0] == ref[0] and (got[1] is None or V.typed_eq(got[1], ref[1])) and (got[2] > 0) == (ref[2] > 0)
                         if not same:
-                            ctx.fail(dict(base_case, raise_errors=re_, step=k, sequence=[(o, repr(b)) for o, b in seq],
+                            ctx.fail(dict(base_case, raise_errors=re_, step=k, sequence=[(o, repr(b)) for o, b, _c in seq],
                                           observed=dict(reused=(got[0], repr(got[1]), got[2]), fresh=(ref[0], repr(ref[1]), ref[2]))),
                                      "a reused Delta object behaves differently from a fresh one (history dependence) at step %d" % k)
                             break
-                        if base is cbase and re_ and got[0] == "ok":
+                        if is_corrupt and re_ and got[0] == "ok":
                             ctx.fail(dict(base_case, raise_errors=True, step=k, base=repr(base), observed="no exception"),
                                      "a mismatched base was accepted by a reused Delta object (raise_errors=True)")
                             break
                         # correspondence: every step of the logging object against the pure model
-                        if not re_ and got[0] == "ok" and k in (1, 3, 5) and DC.in_universe(base) and DC.in_universe(got[1]):
+                        if not re_ and got[0] == "ok" and (k % 2 == 1) and DC.in_universe(base) and DC.in_universe(got[1]):
                             if op == "add":
                                 cv2 = DC.conv_table(pairs + [(type(x.t2), get_safe(base, x)) for x in dd.get("type_changes", []) if get_safe(base, x) is not DC._NF])
                                 cases.append((DC.model_expr(t1, t2, zip_, thr, True, False, base, cv2, rem, add),
